@@ -70,7 +70,9 @@ class World:
         elif mode == "list_configuration":
             a.append("--list-configuration")
         if opts.get("file_mode") is not None:
-            a += ["--file-mode", oct(opts["file_mode"])]
+            # documented: any literal int() accepts with base 0 - 0o644, 420 (decimal), 0x1a4, 0b110100100
+            sp = opts.get("file_mode_spelling", "oct")
+            a += ["--file-mode", {"oct": oct, "dec": str, "hex": hex, "bin": bin}[sp](opts["file_mode"])]
         if opts.get("no_overwrite"):
             a.append("--no-overwrite")
         if opts.get("omit_ser"):
